@@ -35,6 +35,8 @@ type gm struct {
 	ext         map[string]string   // pkg.Name -> integer value of constants of imported modules (module cache)
 	scopes      []map[string]string // source name -> name in the embedding (a shadowing declaration is renamed)
 	nshadow     int
+	module      string
+	cfiles      []*file // the files a unit reads its constants (and record declarations) from
 	foreign     map[string]bool   // fields of the receiver that hold objects of other types (their methods are external calls)
 	namedInts   map[string]string // package-level `type T <integer type>`: a conversion T(x) is the conversion to the underlying type
 }
@@ -556,6 +558,82 @@ func (g *gm) stmt(s ast.Stmt) []string {
 			return "(some " + g.bad("?range variable", e) + ")"
 		}
 		k, v := nm(x.Key), nm(x.Value)
+		// a write THROUGH the range variable (`for _, p := range ps { p.f = v }`) changes the element itself when the
+		// elements are pointers and a copy when they are values; the embedding has no aliasing and no types: outside the subset
+		if vid, ok := x.Value.(*ast.Ident); ok && vid.Name != "_" {
+			through := false
+			root := func(e ast.Expr) (string, bool) {
+				deep := false
+				for {
+					switch y := e.(type) {
+					case *ast.SelectorExpr:
+						e, deep = y.X, true
+					case *ast.IndexExpr:
+						e, deep = y.X, true
+					case *ast.StarExpr:
+						e, deep = y.X, true
+					case *ast.ParenExpr:
+						e = y.X
+					case *ast.Ident:
+						return y.Name, deep
+					default:
+						return "", false
+					}
+				}
+			}
+			ast.Inspect(x.Body, func(n ast.Node) bool {
+				switch y := n.(type) {
+				case *ast.AssignStmt:
+					for _, l := range y.Lhs {
+						if r, deep := root(l); deep && r == vid.Name {
+							through = true
+						}
+					}
+				case *ast.IncDecStmt:
+					if r, deep := root(y.X); deep && r == vid.Name {
+						through = true
+					}
+				}
+				return true
+			})
+			if through {
+				// the one shape that IS translated: a slice of POINTERS (declared per unit in gmPtrSlices by the name of the
+				// field ranged over) whose loop body is nothing but `v.f = e` with e not mentioning the loop variables:
+				// every element gets those fields, L = setFieldsAll(L, {f: e, …})
+				if sx, ok := x.X.(*ast.SelectorExpr); ok && gmPtrSlices[g.module][sx.Sel.Name] && g.ptrSliceField(sx) {
+					var fields []string
+					okShape := true
+					kname := ""
+					if kid, ok := x.Key.(*ast.Ident); ok {
+						kname = kid.Name
+					}
+					for _, st := range x.Body.List {
+						as, ok := st.(*ast.AssignStmt)
+						if !ok || as.Tok != token.ASSIGN || len(as.Lhs) != 1 || len(as.Rhs) != 1 {
+							okShape = false
+							break
+						}
+						sel, ok := as.Lhs[0].(*ast.SelectorExpr)
+						id, ok2 := sel.X.(*ast.Ident)
+						if !ok || !ok2 || id.Name != vid.Name {
+							okShape = false
+							break
+						}
+						ast.Inspect(as.Rhs[0], func(n ast.Node) bool {
+							if i, ok := n.(*ast.Ident); ok && (i.Name == vid.Name || (kname != "" && kname != "_" && i.Name == kname)) {
+								okShape = false
+							}
+							return true
+						})
+						fields = append(fields, "("+strconv.Quote(sel.Sel.Name)+", "+g.expr(as.Rhs[0])+")")
+					}
+					if okShape {
+						return []string{"(.assign [" + rx + "] [(.call \"setFieldsAll\" [" + rx + ", (.lit [" + strings.Join(fields, ", ") + "])])])"}
+					}
+				}
+				return []string{"(.unsupported " + g.bad("write through a range variable (aliasing)", x) + ")"}
+			}
+		}
 		return []string{"(.forRange " + k + " " + v + " " + rx + "\n      " + g.block(x.Body.List) + ")"}
 	case *ast.SwitchStmt:
 		// switch [init;] [tag] { case a, b: …; default: … }  ->  if-chain (no fallthrough)
@@ -713,7 +791,7 @@ func genGoMini(module string, order []string, units map[string][]string, constFi
 				names = append(names, "("+strconv.Quote(short)+", "+def+")")
 				continue
 			}
-			g := &gm{f: f, consts: consts, pkgs: importedPkgs(f), cur: fnName, ext: externalConsts(f), namedInts: named, foreign: gmForeign[module]}
+			g := &gm{f: f, consts: consts, pkgs: importedPkgs(f), cur: fnName, ext: externalConsts(f), namedInts: named, foreign: gmForeign[module], module: module, cfiles: cf}
 			g.push()
 			recv := "none"
 			if fd.Recv != nil && len(fd.Recv.List) > 0 && len(fd.Recv.List[0].Names) > 0 {
@@ -759,7 +837,48 @@ func genGoMini(module string, order []string, units map[string][]string, constFi
 }
 
 // gmForeign: per unit, the receiver fields whose methods belong to other types.
-var gmForeign = map[string]map[string]bool{"GoAuthz": {"metadata": true, "cursors": true}}
+var gmForeign = map[string]map[string]bool{"GoAuthz": {"metadata": true, "cursors": true}, "GoFSM": {"metadata": true, "activity": true}}
+
+// ptrSliceField: `….<Parent>.<Field>` where the unit's declaration files declare `type <Parent> struct { <Field> []*T }`
+// (the parent is named by the selector before the field: protobuf records name a field after its message type).
+func (g *gm) ptrSliceField(sx *ast.SelectorExpr) bool {
+	px, ok := sx.X.(*ast.SelectorExpr)
+	if !ok {
+		return false
+	}
+	for _, f := range g.cfiles {
+		for _, d := range f.f.Decls {
+			gd, ok := d.(*ast.GenDecl)
+			if !ok {
+				continue
+			}
+			for _, sp := range gd.Specs {
+				ts, ok := sp.(*ast.TypeSpec)
+				if !ok || ts.Name.Name != px.Sel.Name {
+					continue
+				}
+				st, ok := ts.Type.(*ast.StructType)
+				if !ok {
+					continue
+				}
+				for _, fl := range st.Fields.List {
+					for _, n := range fl.Names {
+						if n.Name == sx.Sel.Name {
+							if at, ok := fl.Type.(*ast.ArrayType); ok && at.Len == nil {
+								_, isPtr := at.Elt.(*ast.StarExpr)
+								return isPtr
+							}
+						}
+					}
+				}
+			}
+		}
+	}
+	return false
+}
+
+// gmPtrSlices: per unit, fields that hold slices of POINTERS to records (protobuf `repeated` message fields).
+var gmPtrSlices = map[string]map[string]bool{"GoFSM": {"Partitions": true}}
 
 // genGoMiniAll: the translated units, one generated module per package area.
 func genGoMiniAll() []*leanFile {
@@ -821,6 +940,13 @@ func genGoMiniAll() []*leanFile {
 			"apiServer.publishInternal", "apiServer.PublishToSubject", "apiServer.SetCursor", "apiServer.FetchCursor",
 			"apiServer.JoinConsumerGroup", "apiServer.LeaveConsumerGroup"}},
 		[]string{sv + "api.go"})})
+	out = append(out, &leanFile{name: "GoFSM", raw: genGoMini("GoFSM",
+		[]string{sv + "fsm.go"},
+		map[string][]string{sv + "fsm.go": {"Server.apply", "Server.applyCreateStream", "Server.applyShrinkISR", "Server.applyExpandISR",
+			"Server.applyChangePartitionLeader", "Server.applyDeleteStream", "Server.applyPauseStream", "Server.applySetStreamReadonly",
+			"Server.applyResumeStream", "Server.applyCreateConsumerGroup", "Server.applyJoinConsumerGroup", "Server.applyLeaveConsumerGroup",
+			"Server.applyChangeConsumerGroupCoordinator"}},
+		[]string{sv + "fsm.go", "server/protocol/internal.pb.go"})})
 	en := "server/encryption/"
 	out = append(out, &leanFile{name: "GoSeal", raw: genGoMini("GoSeal",
 		[]string{en + "localkey_handler.go"},
